@@ -424,10 +424,26 @@ fn c13_path_replay_kind_mismatch_panics() {
 // New branch points: C02.enumerate (push_load), C08 (branch_spurious), C15 / C01 (branch_thread)
 // ================================================================================================
 
+/// Every schedule branch recorded so far has its chosen thread (a new branch point is only reached
+/// after the previous schedule decision put some thread on the CPU).
+pub(crate) fn all_committed(v: &PathView) -> bool {
+    let mut ok = true;
+    let mut i = 0;
+    while i < LMAX {
+        if i < v.len {
+            if let EntryView::Schedule { threads, .. } = v.entries[i] {
+                ok = ok && count_of(&threads, ACTIVE) == 1;
+            }
+        }
+        i += 1;
+    }
+    ok
+}
+
 fn new_entry_body(l: usize) {
     let mut p = any_path(l, LMAX);
     let old = path_view(&p);
-    kani::assume(wf_path(&old) && old.pos == old.len && old.len < old.cap);
+    kani::assume(wf_path(&old) && all_committed(&old) && old.pos == old.len && old.len < old.cap);
     match kani::any::<u8>() {
         0 => {
             // push_load(seed); branch_load()
